@@ -23,6 +23,9 @@ pub struct FaultCase {
 	pub flavour: Flavour,
 	pub write: bool,
 	pub fault: Option<FaultSpec>,
+	/// hand-over pattern: at environment step n another thread takes leaf `position` (index into the target's leaves)
+	#[serde(default)]
+	pub env_script: Vec<Option<(usize, bool)>>,
 }
 
 pub struct FaultOut {
@@ -55,6 +58,7 @@ pub fn run_fault_case(c: &FaultCase, keep_trace: bool) -> FaultOut {
 		let t = w.build(&c.spec).expect("catalogue spec");
 		ctl.init(w);
 		apply_assignment(ctl, &t.leaves, &c.assign);
+		ctl.exec.lock().env_script = c.env_script.iter().map(|e| e.map(|(pos, excl)| (t.leaves[pos], if excl { Mode::Excl } else { Mode::Shared }))).collect();
 		let foreign_before: Vec<(u32, (Option<usize>, Vec<usize>))> = t.leaves.iter().map(|l| (*l, ctl.holder(*l))).collect();
 		let key = ThreadKey::get().expect("clean");
 		match &c.fault {
@@ -203,7 +207,23 @@ pub fn check_c12(tier: &str) -> ! {
 					if !write && !info.sharable {
 						continue;
 					}
-					base.push(FaultCase { spec: s.clone(), assign: a.clone(), flavour: f, write, fault: None });
+					base.push(FaultCase { spec: s.clone(), assign: a.clone(), flavour: f, write, fault: None, env_script: vec![] });
+					// hand-over patterns for blocking calls that will have to wait: while the subject is blocked,
+					// another thread takes one more leaf (at the first or at the second wait)
+					if !f.is_try() && a.iter().any(|v| *v != 0) && info.leaves.len() >= 2 && info.leaves.len() <= 3 {
+						for step in 0..2usize {
+							for pos in 0..info.leaves.len() {
+								for excl in [true, false] {
+									if !excl && !info.is_rw[pos] {
+										continue;
+									}
+									let mut script = vec![None; step];
+									script.push(Some((pos, excl)));
+									base.push(FaultCase { spec: s.clone(), assign: a.clone(), flavour: f, write, fault: None, env_script: script });
+								}
+							}
+						}
+					}
 				}
 			}
 		}
@@ -234,7 +254,7 @@ pub fn check_c12(tier: &str) -> ! {
 						if !write && !info.sharable {
 							continue;
 						}
-						cases.push(FaultCase { spec: s.clone(), assign: vec![0; info.leaves.len()], flavour: f, write, fault: Some(FaultSpec::Persistent { lock: *l, on_lock, on_try, on_unlock }) });
+						cases.push(FaultCase { spec: s.clone(), assign: vec![0; info.leaves.len()], flavour: f, write, fault: Some(FaultSpec::Persistent { lock: *l, on_lock, on_try, on_unlock }), env_script: vec![] });
 					}
 				}
 			}
@@ -246,7 +266,7 @@ pub fn check_c12(tier: &str) -> ! {
 		rep.add("evaluations", 1);
 		if !o.fired.is_empty() {
 			rep.add("runs_in_which_the_fault_fired", 1);
-			distinct.insert((c.spec.clone(), c.assign.clone(), c.flavour, c.write, o.fired[0].1.lock, o.fired[0].1.act as u8, o.fired[0].0));
+			distinct.insert((c.spec.clone(), c.assign.clone(), c.flavour, c.write, c.env_script.clone(), o.fired[0].1.lock, o.fired[0].1.act as u8, o.fired[0].0));
 		}
 		for v in &o.violations {
 			rep.violation(Viol { prop: v.prop.to_string(), key: v.key.clone(), detail: v.detail.clone(), replay: json!({"kind": "seq-fault", "case": c}) });
